@@ -180,6 +180,11 @@ class CFGen:
         if depth > 0 and r.random() < 0.35:
             # leave via br to any enclosing label of any depth, then dead code that still type-checks
             k = r.randrange(len(labels))
+            # never branch backwards: a br to a loop label would skip the fuel decrement (or re-enter a value
+            # loop) and the program would not terminate; take the next enclosing non-loop label (the function
+            # label always qualifies)
+            while labels[-1 - k][0] == 'loop':
+                k += 1
             out = self.branch_to(k, depth - 1, labels)
             out += self.dead_code(depth - 1, labels)
             out += [self.const(t)]   # unreachable, keeps the body well-typed for strict validators
@@ -394,6 +399,26 @@ def branch_matrix():
         f = Func(CF_PARAMS, [I64], locs, body + acc)
         f.local_groups = groups
         out.append(('locals_groups_%d' % gi, Module(imports=[HOST_H], funcs=[f], exports=[('f', 'func', 1)])))
+    # a block / loop / if with a result whose end is reached only through dead code (left by br to the function
+    # label from a deeper operand slot), followed by a consumer of the never-produced result slot
+    for t in (I32, I64, F32, F64):
+        pidx = {I32: 1, I64: 2, F32: 3, F64: 4}[t]
+        leave = [('i32.const', 2), ('local.get', pidx), ('br', 1), consts[t]]
+        for kind in ('block', 'loop', 'if'):
+            if kind == 'if':
+                st = [('local.get', 1), ('if', t, list(leave), list(leave))]
+            else:
+                st = [(kind, t, list(leave))]
+            for consumer in ('return', 'fall', 'drop'):
+                tail = {'return': [('return',)], 'fall': [], 'drop': [('drop',), consts[t]]}[consumer]
+                if consumer == 'return':
+                    body = [('i32.const', 1)] + st + tail + [consts[t]]
+                elif consumer == 'fall':
+                    body = [('i32.const', 1), ('drop',), ('i32.const', 9), ('call', 0)] + st + [('local.set', 5 + 0)] + [('drop',), ('local.get', 5)]
+                else:
+                    body = [('i32.const', 1)] + st + tail + [('local.set', 5), ('drop',), ('local.get', 5)]
+                f = Func(CF_PARAMS, [t], [t], body)
+                out.append(('deadend_%s_%s_%s' % (kind, t, consumer), Module(imports=[HOST_H], funcs=[f], exports=[('f', 'func', 1)])))
     return out
 
 
